@@ -1,7 +1,7 @@
 (* Property C12: standard containers behave as their abstract models under any operation sequence.
    Only the property theorems, each closed by [exact] of a lemma and followed by Print Assumptions. *)
-From Coq Require Import ZArith List Bool Lia Arith.
-From C12 Require Import Gen Model ProofsBase ProofsVec ProofsSeq ProofsAL ProofsHM1 ProofsHM2 ProofsHM3 ProofsHM4 ProofsHM5 ProofsHash ProofsSB ProofsDL.
+From Coq Require Import ZArith List Bool Lia Arith Permutation.
+From C12 Require Import Gen Model ProofsBase ProofsVec ProofsSeq ProofsAL ProofsHM1 ProofsHM2 ProofsHM3 ProofsHM4 ProofsHM5 ProofsHash ProofsSB ProofsSBA ProofsDL.
 Import ListNotations.
 
 (* ---- vector: every operation of a well-formed vector returns what the list operation returns, leaves a
@@ -66,34 +66,36 @@ Print Assumptions C12_sequence_remove_guard.
    chain of filled nodes whose keys hash to that bucket, every filled node is on exactly its bucket's chain,
    the free list threads exactly the unfilled nodes, size = number of filled nodes, keys of distinct filled
    nodes are not ==, node capacity is tied to the bucket count by the load factor and one node is always free.
-   [hm_R m al]: m satisfies the invariant and its bindings (in node order) denote the same finite map as the
-   association list al (keys unique up to ==).  == must be an equivalence and the hash must respect it.
+   [hm_R m al]: m satisfies the invariant and its bindings (in node order) are a permutation of the association
+   list al.  == must be symmetric and transitive and the hash must respect it; reflexivity is NOT assumed, so
+   float keys including NaN are covered (a NaN key is never found and every assignment to it adds a binding,
+   in the implementation as in the association-list specification).
    Every operation of the driver, from related states, either reports the model-level usize overflow of
-   roundpow2 or returns the finite-map operation's result and re-establishes the relation; lookups agree
-   exactly, iterations return the same set of bindings, each exactly once. *)
+   roundpow2 or returns the association-list operation's result and re-establishes the relation; lookups
+   agree exactly, iterations return a permutation of the bindings (each exactly once). *)
 Theorem C12_hashmap_step_refines_map :
   forall (K V : Type) (kdflt : K) (vdflt : V) (keqb : K -> K -> bool) (khash : K -> Z),
-  (forall a, keqb a a = true) -> (forall a b, keqb a b = keqb b a) ->
+  (forall a b, keqb a b = keqb b a) ->
   (forall a b c, keqb a b = true -> keqb b c = true -> keqb a c = true) ->
   (forall a b, keqb a b = true -> khash a = khash b) ->
   forall (o : hop K V) (m : hmap K V) (al : list (K * V)),
   hm_R K V keqb khash m al ->
   hm_step K V kdflt vdflt keqb khash o m = Trap TrapOverflow \/
   exists m' r al' r', hm_step K V kdflt vdflt keqb khash o m = Ok (m', r) /\
-    al_step K V vdflt keqb o al = Ok (al', r') /\ hm_R K V keqb khash m' al' /\ ret_rel K V keqb r r'.
+    al_step K V vdflt keqb o al = Ok (al', r') /\ hm_R K V keqb khash m' al' /\ ret_rel K V r r'.
 Proof. exact hm_step_refines. Qed.
 Print Assumptions C12_hashmap_step_refines_map.
 
 Theorem C12_hashmap_history_refines_map :
   forall (K V : Type) (kdflt : K) (vdflt : V) (keqb : K -> K -> bool) (khash : K -> Z),
-  (forall a, keqb a a = true) -> (forall a b, keqb a b = keqb b a) ->
+  (forall a b, keqb a b = keqb b a) ->
   (forall a b c, keqb a b = true -> keqb b c = true -> keqb a c = true) ->
   (forall a b, keqb a b = true -> khash a = khash b) ->
   forall (ops : list (hop K V)) (m : hmap K V) (al : list (K * V)),
   hm_R K V keqb khash m al ->
   hm_run K V kdflt vdflt keqb khash ops m = Trap TrapOverflow \/
   exists m' rs al' rs', hm_run K V kdflt vdflt keqb khash ops m = Ok (m', rs) /\
-    al_run K V vdflt keqb ops al = Ok (al', rs') /\ hm_R K V keqb khash m' al' /\ Forall2 (ret_rel K V keqb) rs rs'.
+    al_run K V vdflt keqb ops al = Ok (al', rs') /\ hm_R K V keqb khash m' al' /\ Forall2 (ret_rel K V) rs rs'.
 Proof. exact hm_run_refines. Qed.
 Print Assumptions C12_hashmap_history_refines_map.
 
@@ -102,7 +104,7 @@ Theorem C12_hashmap_empty_related :
 Proof. intros. apply hm_R_empty. Qed.
 Print Assumptions C12_hashmap_empty_related.
 
-(* pairs() yields every binding exactly once: the visited list has keys unique up to ==, as many entries
+(* pairs() yields every binding exactly once: the visited list has keys pairwise not ==, as many entries
    as #m, and looking any key up in it gives what peek gives. *)
 Theorem C12_hashmap_iteration_each_binding_once :
   forall (K V : Type) (keqb : K -> K -> bool) (khash : K -> Z),
@@ -137,23 +139,38 @@ Proof. exact hm_next_ok. Qed.
 Print Assumptions C12_hashmap_next_follows_iteration_order.
 
 (* removing the key just visited while iterating is safe: every original binding is visited exactly once,
-   in the original order, and the resulting map is the original one minus the removed bindings. *)
+   in the original order, and the resulting map is the original one minus the selected bindings whose key can be
+   found ([keep]: a key that is not == to itself is never found by remove, so its binding stays). *)
 Theorem C12_hashmap_erase_during_iteration :
   forall (K V : Type) (kdflt : K) (vdflt : V) (keqb : K -> K -> bool) (khash : K -> Z),
-  (forall a, keqb a a = true) -> (forall a b, keqb a b = keqb b a) ->
+  (forall a b, keqb a b = keqb b a) ->
   (forall a b c, keqb a b = true -> keqb b c = true -> keqb a c = true) ->
   (forall a b, keqb a b = true -> khash a = khash b) ->
   forall (pred : K -> V -> bool) (m : hmap K V), hm_inv K V keqb khash m ->
   exists m', hm_pairs_erase K V kdflt vdflt keqb khash pred m = Ok (hm_abs K V m, m') /\
-             hm_inv K V keqb khash m' /\ hm_abs K V m' = filter (keep K V pred) (hm_abs K V m).
+             hm_inv K V keqb khash m' /\ hm_abs K V m' = filter (keep K V keqb pred) (hm_abs K V m).
 Proof. exact hm_pairs_erase_ok. Qed.
 Print Assumptions C12_hashmap_erase_during_iteration.
+
+(* keys that are not == to themselves (NaN): never found; remove is a no-op; every assignment adds a binding *)
+Theorem C12_hashmap_irreflexive_keys :
+  forall (K V : Type) (kdflt : K) (vdflt : V) (keqb : K -> K -> bool) (khash : K -> Z),
+  (forall a b, keqb a b = keqb b a) ->
+  (forall a b c, keqb a b = true -> keqb b c = true -> keqb a c = true) ->
+  (forall a b, keqb a b = true -> khash a = khash b) ->
+  forall (m : hmap K V) (k : K) (v : V), hm_inv K V keqb khash m -> keqb k k = false ->
+  hm_peek K V keqb khash k m = Ok None /\
+  (exists m', hm_remove K V kdflt vdflt keqb khash k m = Ok (m', None) /\ hm_abs K V m' = hm_abs K V m) /\
+  (hm_set K V kdflt vdflt keqb khash k v m = Trap TrapOverflow \/
+   exists m', hm_set K V kdflt vdflt keqb khash k v m = Ok m' /\ hm_inv K V keqb khash m' /\
+              Permutation (hm_abs K V m') ((k, v) :: hm_abs K V m)).
+Proof. exact hm_irrefl_key. Qed.
+Print Assumptions C12_hashmap_irreflexive_keys.
 
 (* growth or shrink rehash (incl. rehash(0) compaction) keeps exactly the bindings, in order *)
 Theorem C12_hashmap_rehash_preserves_bindings :
   forall (K V : Type) (kdflt : K) (vdflt : V) (keqb : K -> K -> bool) (khash : K -> Z),
-  (forall a, keqb a a = true) -> (forall a b, keqb a b = keqb b a) ->
-  (forall a b c, keqb a b = true -> keqb b c = true -> keqb a c = true) ->
+  (forall a b, keqb a b = keqb b a) ->
   forall (n : nat) (m : hmap K V), hm_inv K V keqb khash m ->
   hm_rehash K V kdflt vdflt keqb khash n m = Trap TrapOverflow \/
   exists m', hm_rehash K V kdflt vdflt keqb khash n m = Ok m' /\ hm_inv K V keqb khash m' /\ hm_abs K V m' = hm_abs K V m.
@@ -163,8 +180,7 @@ Print Assumptions C12_hashmap_rehash_preserves_bindings.
 (* the model-level Overflow outcome of rehash (usize wrap in roundpow2) needs more than 2^62 buckets *)
 Theorem C12_hashmap_overflow_only_beyond_2p62 :
   forall (K V : Type) (kdflt : K) (vdflt : V) (keqb : K -> K -> bool) (khash : K -> Z),
-  (forall a, keqb a a = true) -> (forall a b, keqb a b = keqb b a) ->
-  (forall a b c, keqb a b = true -> keqb b c = true -> keqb a c = true) ->
+  (forall a b, keqb a b = keqb b a) ->
   forall (n : nat) (m : hmap K V), hm_inv K V keqb khash m ->
   hm_rehash K V kdflt vdflt keqb khash n m = Trap TrapOverflow ->
   (2 ^ 62 < Z.of_nat (Nat.max n (ceilidiv (hsize K V m * 100) HM_MAXLF_n)))%Z.
@@ -227,6 +243,18 @@ Print Assumptions C12_stringbuilder_commit_exact.
 Theorem C12_stringbuilder_rollback_guard : forall (n : nat) (b : sb), sb_wf b -> sbsize b < n -> sb_rollback n b = Trap TrapNoSpace.
 Proof. exact sb_rollback_guard. Qed.
 Print Assumptions C12_stringbuilder_rollback_guard.
+
+(* under an allocator that may refuse any request ([ok] arbitrary): every operation either acts on the byte string
+   as specified, or reports failure (false / empty span) and leaves the contents untouched; the builder stays well
+   formed ([sb_wf_a]: NUL slot and zero tail; the capacity may be below INIT_CAPACITY after a fallback allocation). *)
+Theorem C12_stringbuilder_allocation_failure : forall (ok : nat -> bool) (o : bop) (b : sb), sb_wf_a b -> sb_op_ok_a o ->
+  match by_step o (sb_view b) with
+  | Ok (l', r) => exists b' r', sb_step_a ok o b = Ok (b', r') /\ sb_wf_a b' /\
+                                ((sb_view b' = l' /\ r' = r) \/ (sb_view b' = sb_view b /\ sb_failure o r'))
+  | Trap t => sb_step_a ok o b = Trap t
+  end.
+Proof. exact sb_step_a_refines. Qed.
+Print Assumptions C12_stringbuilder_allocation_failure.
 
 (* ---- span: the bounds guards fire exactly when the index / range is invalid *)
 Theorem C12_span_guards : forall (T : Type) (i j : nat) (s : list T),
